@@ -116,7 +116,7 @@ package storage
 
 // every type restriction contributes one string that distinguishes type, type#relation and type:* (so [user] and [user:*] differ)
 //@ func copyRelationReferences(a, refs) (w)
-//@   property C24
+//@   property C24 C09
 //@   option nosafety
 //@   modifies elems(a)
 //@   loop 0 invariant fresh(parts) && len(parts) == $idx + 1 && $idx < len(refs) && forall j int :: 0 <= j && j <= $idx ==> parts[j] == refPart(refs[j])
@@ -127,7 +127,7 @@ package storage
 //@   ensures @count w == min(len(a), len(refs))
 
 //@ func copyObjectRelations(a, rels) (w)
-//@   property C24
+//@   property C24 C09
 //@   option nosafety
 //@   modifies elems(a)
 //@   loop 0 invariant fresh(values) && len(values) == len(rels) && $idx < len(rels) && forall j int :: 0 <= j && j <= $idx ==> values[j] == objRelPart(rels[j])
@@ -139,7 +139,7 @@ package storage
 
 // every condition name, the empty "unconditioned" name included, is kept (Conditions=[""] differs from Conditions=nil)
 //@ func copyConditions(a, conditions) (w)
-//@   property C24
+//@   property C24 C09
 //@   option nosafety
 //@   modifies elems(a)
 //@   loop 0 invariant w == $idx + 1 && w <= len(a) && len(sorted) == len(conditions) && $idx < len(sorted)
@@ -157,7 +157,7 @@ package storage
 // the scalar fields, store first, are length-prefixed fields of the key itself.
 
 //@ func ReadKey(store, filter) (k)
-//@   property C24 C16
+//@   property C24 C16 C09
 //@   option nosafety
 //@   pure
 //@   option frame_skip H:keys. MemB Mem:
@@ -174,7 +174,7 @@ package storage
 //@   ensures @fields k.data == encString("IC") + encString("READ") + encString(store) + encString(filter.Object) + encString(filter.Relation) + encString(filter.User) + encUint64(suffix)
 
 //@ func ReadUsersetTuplesKey(store, filter) (k)
-//@   property C24 C16
+//@   property C24 C16 C09
 //@   option nosafety
 //@   pure
 //@   option frame_skip H:keys. MemB Mem:
@@ -191,7 +191,7 @@ package storage
 //@   ensures @fields k.data == encString("IC") + encString("RUT") + encString(store) + encString(filter.Object) + encString(filter.Relation) + encUint64(suffix)
 
 //@ func ReadStartingWithUserKey(store, filter) (k)
-//@   property C24 C16
+//@   property C24 C16 C09
 //@   option nosafety
 //@   pure
 //@   option frame_skip H:keys. MemB Mem:
